@@ -38,10 +38,12 @@ def ecdsaSign (xr : G → F) (g : G) (d k e : F) : F × F :=
   let r := xr (k • g)
   (r, k⁻¹ * (e + r * d))
 
-/-- public-key recovery `r⁻¹ • (s•R − e•g)` where `R = lift r v` is the point whose x-coordinate is
-(`r`, or `r + n` when bit 1 of `v` is set) with the y-parity given by bit 0 of `v` -/
+/-- public-key recovery `r⁻¹ • (s•R − e•g) = (r⁻¹ s)•R − (r⁻¹ e)•g` where `R = lift r v` is the point
+whose x-coordinate is (`r`, or `r + n` when bit 1 of `v` is set) with the y-parity given by bit 0 of `v`.
+Written with two scalar multiplications (the library computes `(s•R − z•G)•r⁻¹`; in a module over the
+scalar field the two coincide, `Props.C15.ecdsaRecover_eq`) -/
 def ecdsaRecover (lift : F → Nat → Option G) (g : G) (e r s : F) (v : Nat) : Option G :=
-  (lift r v).map fun R => r⁻¹ • (s • R + -(e • g))
+  (lift r v).map fun R => (r⁻¹ * s) • R + -((r⁻¹ * e) • g)
 
 /-- `Signature.Normalise`: low-S form, recovery bit flipped when `s` is negated -/
 def ecdsaNormalise (low : F → Bool) (sig : F × F × Option Nat) : F × F × Option Nat :=
@@ -57,6 +59,19 @@ def ecdsaVerify (xr : G → F) (lift : F → Nat → Option G) (low : F → Bool
     | some v => decide (ecdsaRecover lift g e sig.1 sig.2.1 v = some pk)) &&
   ecdsaCore xr g pk e sig.1 sig.2.1
 
+/-- **crafted triples.**  Anyone can pick `(r, s, v)` freely and present it under the key `Q` that public-key
+recovery returns for it.  `ecdsaForge` is what the property demands of the verifier on such an input:
+the recovered key `Q`, the verdict of the default verifier (`= ecdsaCore` under `Q`: the textbook
+equation decides, *not* the fact that `Q` was recovered from the triple — the two differ exactly when the
+lifted x-coordinate does not reduce to `r`, see `Props.C15.ecdsa_recover_eq_not_sufficient`), and the
+verdict of the strict verifier (`low s ∧` the former).  `Props.C15.ecdsaForge_spec` relates the three
+components to `ecdsaRecover` / `ecdsaVerify`. -/
+def ecdsaForge (xr : G → F) (lift : F → Nat → Option G) (low : F → Bool) (g : G) (e r s : F) (v : Nat) :
+    Option (G × Bool × Bool) :=
+  (ecdsaRecover lift g e r s v).map fun Q =>
+    let c := ecdsaCore xr g Q e r s
+    (Q, c, low s && c)
+
 /-! ## Schnorr family -/
 
 /-- `VerifierTrait.Verify`: `pk, R ≠ 0`, `s ≠ 0`, `R` in the prime-order subgroup (`tf`), and
@@ -64,6 +79,13 @@ def ecdsaVerify (xr : G → F) (lift : F → Nat → Option G) (low : F → Bool
 def schnorrVerify (tf : G → Bool) (negResp : Bool) (g pk R : G) (e s : F) : Bool :=
   decide (pk ≠ 0) && decide (s ≠ 0) && decide (R ≠ 0) && tf R &&
     decide (s • g = R + (if negResp then -(e • pk) else e • pk))
+
+/-- the nonce commitment an attacker *without* the secret key fabricates from a freely chosen response `s`
+and a freely chosen "challenge" `e'`: `R = s•g ∓ e'•pk`.  A verifier that trusted a challenge carried
+in the signature would accept it; one that recomputes `e = H(R, pk, m)` accepts iff `(e − e')•pk = 0`
+(`Props.C15.schnorr_crafted_iff`). -/
+def schnorrCraftR (negResp : Bool) (g pk : G) (e' s : F) : G :=
+  s • g + (if negResp then e' • pk else -(e' • pk))
 
 /-- generic response `s = k ± e·x` -/
 def schnorrResponse (negResp : Bool) (x k e : F) : F := k + (if negResp then -(e * x) else e * x)
